@@ -57,10 +57,9 @@ TRUSTED = ['hand-written model programs Model/ProxProg.lean (tied by running the
            'NumPy element-wise ufuncs with out identical to an input are well defined; '
            'space.lincomb obeys its specification (that is property C01)']
 ASSUMPTIONS = ['identity aliasing only (overlapping views of distinct objects are outside C10)',
-               'the data an operator closes over (g, sigma, bounds, the vector of OperatorVectorSum, ...) are '
-               'objects distinct from x and out: ODL stores such vectors by reference, so (op + x)(x, out=x) '
-               'computes 2*op(x) on the unchanged /repo; that is aliasing between the iterate and the '
-               'operator\'s own parameter, outside "out is x" and outside C10',
+               'since the extra round the aliased call ON the closed-over element itself (x = out = g / sigma / '
+               'bounds / prior / translation y / the vector of OperatorVectorSum) IS checked (stratum self-alias, '
+               'P(e, out=e) vs P(e.copy())); overlapping views of distinct objects remain outside C10',
                'one NumPy/ODL call reads all its inputs before it writes `out` (ufuncs with out '
                'identical to an input; space.lincomb = property C01): for the 25 program variants '
                'whose only write to out is their last statement alias safety IS this assumption plus '
